@@ -323,7 +323,8 @@ func (cs *c25case) csm(w c25write) io.ColumnSeriesMap {
 // c25capture is the ReplicationSender of the master: it stores a copy of every group it is handed.
 type c25capture struct {
 	mu      sync.Mutex
-	tgs     [][]byte
+	tgs     [][]byte // copies taken inside Send: what a replica whose link keeps up receives
+	refs    [][]byte // the very slices handed to Send, retained un-copied as replication.Sender queues them
 	gate    chan struct{} // when set, the next Send blocks on it after signalling entered
 	entered chan struct{}
 }
@@ -334,6 +335,7 @@ func (c *c25capture) Send(tg []byte) {
 	cp := append([]byte(nil), tg...)
 	c.mu.Lock()
 	c.tgs = append(c.tgs, cp)
+	c.refs = append(c.refs, tg)
 	g, e := c.gate, c.entered
 	c.gate, c.entered = nil, nil
 	c.mu.Unlock()
@@ -603,6 +605,22 @@ func c25run(c *runner.Ctx) (res runner.Result) {
 
 	capt.mu.Lock()
 	tgs := capt.tgs
+	sent := capt.tgs
+	// Every second case models a link that lags behind the writers: replication.Sender.Send only queues
+	// the slice it is handed (chan []byte, 500 deep) and the gRPC server queues it again per stream, so a
+	// replica that is slower than the writers receives what those slices hold when they are finally
+	// marshalled - here: after the master's last write. (The master legitimately sorts variable-length
+	// payloads in place inside a sent buffer; such a buffer still describes the same rows.)
+	lagging := c.Case%2 == 1
+	if lagging {
+		tgs = capt.refs
+		res.Count("lagging_link_cases", 1)
+		for i := range sent {
+			if string(sent[i]) != string(capt.refs[i]) {
+				res.Count("queued_buffers_changed_after_send", 1)
+			}
+		}
+	}
 	capt.mu.Unlock()
 
 	replica := ms.Open(c.Scratch+"/replica", ms.Opts{})
@@ -611,7 +629,7 @@ func c25run(c *runner.Ctx) (res runner.Result) {
 	var replayErrs []string
 	var infos []c25tgInfo
 	for i, tg := range tgs {
-		inf := c25parse(tg)
+		inf := c25parse(sent[i])
 		infos = append(infos, inf)
 		res.Count("tgs_replayed", 1)
 		res.Count("write_sets_replayed", int64(len(inf.sets)))
